@@ -4,34 +4,40 @@ Require Import RV.model.Syntax RV.model.Compiler RV.model.ScalarFrag RV.model.Va
 Import ListNotations.
 Local Open Scope nat_scope.
 
-Lemma embed_stmts_cons names k s r :
-  embed_stmts names k (s :: r) = embed_stmt names k s :: embed_stmts names (next_k k s) r.
+Definition next_n (n : nat) (s : stmt) : nat := match s with SDecl _ => S n | _ => n end.
+
+Lemma embed_stmts_cons names k scope s r :
+  embed_stmts names k scope (s :: r) = embed_stmt names k scope s :: embed_stmts names (k + nd s) (next_scope k scope s) r.
 Proof. reflexivity. Qed.
-Lemma embed_SIf names k c t e : embed_stmt names k (SIf c t e) =
-  NIf (embed names c) (embed_stmts names k t) (Some (embed_stmts names k e)).
+Lemma embed_SIf names k scope c t e : embed_stmt names k scope (SIf c t e) =
+  NIf (embed (vnames names scope) c) (embed_stmts names k scope t) (Some (embed_stmts names (k + ndecls t) scope e)).
 Proof. reflexivity. Qed.
-Lemma embed_SIf1 names k c t : embed_stmt names k (SIf1 c t) = NIf (embed names c) (embed_stmts names k t) None.
+Lemma embed_SIf1 names k scope c t : embed_stmt names k scope (SIf1 c t) =
+  NIf (embed (vnames names scope) c) (embed_stmts names k scope t) None.
 Proof. reflexivity. Qed.
-Lemma embed_SWhile names k c b : embed_stmt names k (SWhile c b) =
-  NFor (Some (embed names c)) None None (embed_stmts names k b).
+Lemma embed_SWhile names k scope c b : embed_stmt names k scope (SWhile c b) =
+  NFor (Some (embed (vnames names scope) c)) None None (embed_stmts names k scope b).
 Proof. reflexivity. Qed.
 
-Lemma wf_stmts_cons top lp k s r : wf_stmts top lp k (s :: r) = wf_stmt top lp k s && wf_stmts top lp (next_k k s) r.
+Lemma wf_stmts_cons lp n s r : wf_stmts lp n (s :: r) = wf_stmt lp n s && wf_stmts lp (next_n n s) r.
 Proof. reflexivity. Qed.
-Lemma wf_SIf top lp k c t e : wf_stmt top lp k (SIf c t e) = wf k c && wf_stmts false lp k t && wf_stmts false lp k e.
+Lemma wf_SIf lp n c t e : wf_stmt lp n (SIf c t e) = wf n c && wf_stmts lp n t && wf_stmts lp n e.
 Proof. reflexivity. Qed.
-Lemma wf_SIf1 top lp k c t : wf_stmt top lp k (SIf1 c t) = wf k c && wf_stmts false lp k t.
+Lemma wf_SIf1 lp n c t : wf_stmt lp n (SIf1 c t) = wf n c && wf_stmts lp n t.
 Proof. reflexivity. Qed.
-Lemma wf_SWhile top lp k c b : wf_stmt top lp k (SWhile c b) = wf k c && wf_stmts false true k b.
+Lemma wf_SWhile lp n c b : wf_stmt lp n (SWhile c b) = wf n c && wf_stmts true n b.
 Proof. reflexivity. Qed.
-Lemma wf_false_next lp k s : wf_stmt false lp k s = true -> next_k k s = k.
-Proof. destruct s; try reflexivity. discriminate. Qed.
-Lemma wf_false_ndecls lp : forall l k, wf_stmts false lp k l = true -> ndecls l = 0.
-Proof.
-  induction l as [|s r IH]; intros k H; [reflexivity|].
-  rewrite wf_stmts_cons in H. apply andb_true_iff in H. destruct H as [Hs Hr].
-  destruct s; try discriminate; cbn [ndecls]; exact (IH _ Hr).
-Qed.
+
+Lemma ndecls_cons s r : ndecls (s :: r) = nd s + ndecls r.
+Proof. reflexivity. Qed.
+Lemma nd_SIf c t e : nd (SIf c t e) = ndecls t + ndecls e.
+Proof. reflexivity. Qed.
+Lemma nd_SIf1 c t : nd (SIf1 c t) = ndecls t.
+Proof. reflexivity. Qed.
+Lemma nd_SWhile c b : nd (SWhile c b) = ndecls b.
+Proof. reflexivity. Qed.
+Lemma next_scope_length k scope s : length (next_scope k scope s) = next_n (length scope) s.
+Proof. destruct s; cbn [next_scope next_n]; try reflexivity. rewrite app_length. cbn. lia. Qed.
 
 Lemma max_height_cons s r : max_height (s :: r) = Nat.max (sheight s) (max_height r).
 Proof. reflexivity. Qed.
@@ -61,33 +67,33 @@ Proof.
   - rewrite sneed_SWhile. pose proof (need_pos c). lia.
 Qed.
 
-Lemma ndecls_cons k s r : next_k k s + ndecls r = k + ndecls (s :: r).
-Proof. destruct s; cbn [next_k ndecls]; lia. Qed.
 Lemma embed_is_expression names e : is_expression (embed names e) = true.
 Proof. destruct e; reflexivity. Qed.
-Lemma embed_stmt_is_expression names k s : is_expression (embed_stmt names k s) = is_expr_stmt s.
+Lemma embed_stmt_is_expression names k scope s : is_expression (embed_stmt names k scope s) = is_expr_stmt s.
 Proof. destruct s; try reflexivity. apply embed_is_expression. Qed.
 
 (* ---------------------------------------------------------------- source-level meaning *)
 Lemma run_stmts_cons n rho s r last : run_stmts n rho (s :: r) last =
   match run_stmt n rho s with Some (inl (rho', v)) => run_stmts n rho' r v | other => other end.
 Proof. reflexivity. Qed.
+Definition run_blk (n : nat) (rho : list sval) (l : list stmt) : result :=
+  option_map (trunc (length rho)) (run_stmts n rho l VNil).
 Lemma run_SIf n rho c t e : run_stmt (S n) rho (SIf c t e) =
   match sev rho c with
-  | inl vc => run_stmts n rho (if struthy vc then t else e) VNil
+  | inl vc => run_blk n rho (if struthy vc then t else e)
   | inr x => Some (inr (StErr x))
   end.
 Proof. reflexivity. Qed.
 Lemma run_SIf1 n rho c t : run_stmt (S n) rho (SIf1 c t) =
   match sev rho c with
-  | inl vc => if struthy vc then run_stmts n rho t VNil else Some (inl (rho, VNil))
+  | inl vc => if struthy vc then run_blk n rho t else Some (inl (rho, VNil))
   | inr x => Some (inr (StErr x))
   end.
 Proof. reflexivity. Qed.
 Lemma run_SWhile n rho c b : run_stmt (S n) rho (SWhile c b) =
   match sev rho c with
   | inl vc => if struthy vc then
-                match run_stmts n rho b VNil with
+                match run_blk n rho b with
                 | Some (inl (rho', _)) | Some (inr (StCont rho')) => run_stmt n rho' (SWhile c b)
                 | Some (inr (StBrk rho')) => Some (inl (rho', VNil))
                 | other => other
@@ -98,32 +104,32 @@ Lemma run_SWhile n rho c b : run_stmt (S n) rho (SWhile c b) =
 Proof. reflexivity. Qed.
 
 (* ---------------------------------------------------------------- emitted code *)
-Lemma scode_single k base s : scode k base [s] =
-  let '(c, ks) := stmt_code k base s in (c ++ (if is_expr_stmt s then [] else I [opNil]), ks).
+Lemma scode_single k scope base s : scode k scope base [s] =
+  let '(c, ks) := stmt_code k scope base s in (c ++ (if is_expr_stmt s then [] else I [opNil]), ks).
 Proof. reflexivity. Qed.
-Lemma scode_cons2 k base s s2 r2 : scode k base (s :: s2 :: r2) =
-  let '(c, ks) := stmt_code k base s in
-  let '(cr, kr) := scode (next_k k s) (base + length ks) (s2 :: r2) in
+Lemma scode_cons2 k scope base s s2 r2 : scode k scope base (s :: s2 :: r2) =
+  let '(c, ks) := stmt_code k scope base s in
+  let '(cr, kr) := scode (k + nd s) (next_scope k scope s) (base + length ks) (s2 :: r2) in
   (c ++ (if is_expr_stmt s then I [opPopTop] else []) ++ cr, ks ++ kr).
 Proof. reflexivity. Qed.
-Lemma block_code_nil k base : block_code k base [] = (I [opNil], []).
+Lemma block_code_nil k scope base : block_code k scope base [] = (I [opNil], []).
 Proof. reflexivity. Qed.
-Lemma block_code_cons k base s r : block_code k base (s :: r) = scode k base (s :: r).
+Lemma block_code_cons k scope base s r : block_code k scope base (s :: r) = scode k scope base (s :: r).
 Proof. reflexivity. Qed.
-Lemma code_SIf k base c t e : stmt_code k base (SIf c t e) =
-  let '(cc, kc) := cexp base c in
-  let '(ct, kt) := block_code k (base + length kc) t in
-  let '(ce, ke) := block_code k (base + length kc + length kt) e in
+Lemma code_SIf k scope base c t e : stmt_code k scope base (SIf c t e) =
+  let '(cc, kc) := cexp_at (slot_of scope) base c in
+  let '(ct, kt) := block_code k scope (base + length kc) t in
+  let '(ce, ke) := block_code (k + ndecls t) scope (base + length kc + length kt) e in
   (I cc ++ I [opPopJumpForwardIfFalse; (nlen ct + 4)%N] ++ ct ++ I [opJumpForward; (nlen ce + 2)%N] ++ ce, kc ++ kt ++ ke).
 Proof. reflexivity. Qed.
-Lemma code_SIf1 k base c t : stmt_code k base (SIf1 c t) =
-  let '(cc, kc) := cexp base c in
-  let '(ct, kt) := block_code k (base + length kc) t in
+Lemma code_SIf1 k scope base c t : stmt_code k scope base (SIf1 c t) =
+  let '(cc, kc) := cexp_at (slot_of scope) base c in
+  let '(ct, kt) := block_code k scope (base + length kc) t in
   (I cc ++ I [opPopJumpForwardIfFalse; (nlen ct + 4)%N] ++ ct ++ I [opJumpForward; 3%N] ++ I [opNil], kc ++ kt).
 Proof. reflexivity. Qed.
-Lemma code_SWhile k base c b : stmt_code k base (SWhile c b) =
-  let '(cc, kc) := cexp base c in
-  let '(cb, kb) := block_code k (base + length kc) b in
+Lemma code_SWhile k scope base c b : stmt_code k scope base (SWhile c b) =
+  let '(cc, kc) := cexp_at (slot_of scope) base c in
+  let '(cb, kb) := block_code k scope (base + length kc) b in
   let inner := I cc ++ I [opPopJumpForwardIfFalse; (nlen cb + 6)%N] ++ cb ++ I [opPopTop] in
   let jb := nlen inner in
   (patch 0 (jb + 2) jb inner ++ I [opJumpBackward; jb; opNop], kc ++ kb).
@@ -137,82 +143,94 @@ Proof. revert i; induction rho as [|x r IH]; intros [|i] H; cbn in *; try lia; [
 Lemma nth_set_nth_other i j v rho d : i <> j -> nth j (set_nth i v rho) d = nth j rho d.
 Proof. revert i j; induction rho as [|x r IH]; intros [|i] [|j] H; cbn; try reflexivity; try lia. apply IH. lia. Qed.
 
-(* ---------------------------------------------------------------- what a run does to the variable list *)
-(* the variable list a result carries: after a normal end the declaration (if any) is added; a break / continue
-   carries the list of its own moment, of the same length (blocks declare nothing) *)
+(* ---------------------------------------------------------------- what a run does to the list of visible variables *)
+(* after a normal end a declaration has added its variable; a break / continue that leaves a STATEMENT carries as many
+   variables as the statement started with (the blocks it crossed have dropped theirs) *)
 Definition len_ok (rho : list sval) (s : stmt) (r : (list sval * sval) + stop) : Prop :=
   match r with
-  | inl (rho', _) => length rho' = next_k (length rho) s
+  | inl (rho', _) => length rho' = next_n (length rho) s
   | inr (StBrk rho') | inr (StCont rho') => length rho' = length rho
   | inr (StErr _) => True
   end.
 Definition length_ok (n : nat) : Prop :=
-  forall rho s top lp r, wf_stmt top lp (length rho) s = true -> run_stmt n rho s = Some r -> len_ok rho s r.
-
+  forall rho s r, run_stmt n rho s = Some r -> len_ok rho s r.
+(* in a list the variables declared so far are still there *)
 Definition lens_ok (rho : list sval) (r : (list sval * sval) + stop) : Prop :=
+  match r with
+  | inl (rho', _) | inr (StBrk rho') | inr (StCont rho') => length rho <= length rho'
+  | inr (StErr _) => True
+  end.
+(* at the end of a block they are gone *)
+Definition lenb_ok (rho : list sval) (r : (list sval * sval) + stop) : Prop :=
   match r with
   | inl (rho', _) | inr (StBrk rho') | inr (StCont rho') => length rho' = length rho
   | inr (StErr _) => True
   end.
 
-Lemma run_list_length n : length_ok n -> forall l rho last lp r,
-  wf_stmts false lp (length rho) l = true -> run_stmts n rho l last = Some r -> lens_ok rho r.
+Lemma run_list_length n : length_ok n -> forall l rho last r,
+  run_stmts n rho l last = Some r -> lens_ok rho r.
 Proof.
-  intros Hn. induction l as [|s r0 IH]; intros rho last lp r Hwf Hr.
-  - cbn in Hr. inversion Hr. reflexivity.
-  - rewrite wf_stmts_cons in Hwf. apply andb_true_iff in Hwf. destruct Hwf as [Hs Hwr].
-    rewrite run_stmts_cons in Hr.
+  intros Hn. induction l as [|s r0 IH]; intros rho last r Hr.
+  - cbn in Hr. inversion Hr. cbn. lia.
+  - rewrite run_stmts_cons in Hr.
     destruct (run_stmt n rho s) as [[[rho1 v1]|x]|] eqn:E; try discriminate.
-    + pose proof (Hn rho s false lp _ Hs E) as Hl. cbn [len_ok] in Hl. rewrite (wf_false_next _ _ _ Hs) in Hl, Hwr.
-      rewrite <- Hl in Hwr. pose proof (IH rho1 v1 lp r Hwr Hr) as H2.
-      destruct r as [[rho2 v2]|[e|rho2|rho2]]; cbn [lens_ok] in *; congruence.
-    + inversion Hr; subst r. pose proof (Hn rho s false lp _ Hs E) as Hl. destruct x; exact Hl.
+    + pose proof (Hn rho s _ E) as Hl. cbn [len_ok] in Hl.
+      pose proof (IH rho1 v1 r Hr) as H2.
+      assert (Hle : length rho <= length rho1) by (rewrite Hl; destruct s; cbn [next_n]; lia).
+      destruct r as [[rho2 v2]|[e|rho2|rho2]]; cbn [lens_ok] in *; lia.
+    + inversion Hr; subst r. pose proof (Hn rho s _ E) as Hl. destruct x; cbn [len_ok lens_ok] in *; lia.
+Qed.
+
+Lemma trunc_lenb n rho r : lens_ok rho r -> n = length rho -> lenb_ok rho (trunc n r).
+Proof.
+  intros H ->. destruct r as [[rho' v]|[x|rho'|rho']]; cbn [trunc lenb_ok lens_ok] in *; try exact Logic.I;
+    rewrite firstn_length; lia.
+Qed.
+
+Lemma run_blk_length n : length_ok n -> forall l rho r, run_blk n rho l = Some r -> lenb_ok rho r.
+Proof.
+  intros Hn l rho r Hr. unfold run_blk in Hr.
+  destruct (run_stmts n rho l VNil) as [r0|] eqn:E; [|discriminate]. cbn in Hr. inversion Hr; subst r.
+  apply trunc_lenb; [exact (run_list_length n Hn l rho VNil r0 E)|reflexivity].
 Qed.
 
 Lemma run_stmt_length : forall n, length_ok n.
 Proof.
-  induction n as [|n IH]; intros rho s top lp r Hwf Hr; [discriminate|].
+  induction n as [|n IH]; intros rho s r Hr; [discriminate|].
   destruct s as [e|i e|i o e|i up|e|c t e|c t|c b| |].
-  - cbn [run_stmt] in Hr. destruct (sev rho e); inversion Hr; cbn [len_ok next_k]; [rewrite app_length; cbn; lia|exact Logic.I].
-  - cbn [run_stmt] in Hr. destruct (sev rho e); inversion Hr; cbn [len_ok next_k]; [apply set_nth_length|exact Logic.I].
+  - cbn [run_stmt] in Hr. destruct (sev rho e); inversion Hr; cbn [len_ok next_n]; [rewrite app_length; cbn; lia|exact Logic.I].
+  - cbn [run_stmt] in Hr. destruct (sev rho e); inversion Hr; cbn [len_ok next_n]; [apply set_nth_length|exact Logic.I].
   - cbn [run_stmt] in Hr. destruct (sev rho e); [|inversion Hr; exact Logic.I].
-    destruct (sbin o (nth i rho VNil) s); inversion Hr; cbn [len_ok next_k]; [apply set_nth_length|exact Logic.I].
-  - cbn [run_stmt] in Hr. destruct (sbin BAdd (nth i rho VNil) (VInt (if up then 1%Z else (-1)%Z))); inversion Hr; cbn [len_ok next_k];
+    destruct (sbin o (nth i rho VNil) s); inversion Hr; cbn [len_ok next_n]; [apply set_nth_length|exact Logic.I].
+  - cbn [run_stmt] in Hr. destruct (sbin BAdd (nth i rho VNil) (VInt (if up then 1%Z else (-1)%Z))); inversion Hr; cbn [len_ok next_n];
       [apply set_nth_length|exact Logic.I].
-  - cbn [run_stmt] in Hr. destruct (sev rho e); inversion Hr; cbn [len_ok next_k]; [reflexivity|exact Logic.I].
-  - rewrite wf_SIf in Hwf. apply andb_true_iff in Hwf. destruct Hwf as [Hwct Hwe].
-    apply andb_true_iff in Hwct. destruct Hwct as [Hwc Hwt].
-    rewrite run_SIf in Hr. destruct (sev rho c) as [vc|x]; [|inversion Hr; exact Logic.I].
-    assert (H : lens_ok rho r).
-    { destruct (struthy vc); [exact (run_list_length n IH t rho VNil lp r Hwt Hr)|exact (run_list_length n IH e rho VNil lp r Hwe Hr)]. }
+  - cbn [run_stmt] in Hr. destruct (sev rho e); inversion Hr; cbn [len_ok next_n]; [reflexivity|exact Logic.I].
+  - rewrite run_SIf in Hr. destruct (sev rho c) as [vc|x]; [|inversion Hr; exact Logic.I].
+    pose proof (run_blk_length n IH _ rho r Hr) as H.
     destruct r as [[rho2 v2]|[x|rho2|rho2]]; exact H.
-  - rewrite wf_SIf1 in Hwf. apply andb_true_iff in Hwf. destruct Hwf as [Hwc Hwt].
-    rewrite run_SIf1 in Hr. destruct (sev rho c) as [vc|x]; [|inversion Hr; exact Logic.I].
+  - rewrite run_SIf1 in Hr. destruct (sev rho c) as [vc|x]; [|inversion Hr; exact Logic.I].
     destruct (struthy vc); [|inversion Hr; reflexivity].
-    pose proof (run_list_length n IH t rho VNil lp r Hwt Hr) as H.
+    pose proof (run_blk_length n IH _ rho r Hr) as H.
     destruct r as [[rho2 v2]|[x|rho2|rho2]]; exact H.
-  - rewrite wf_SWhile in Hwf. apply andb_true_iff in Hwf. destruct Hwf as [Hwc Hwb].
-    rewrite run_SWhile in Hr. destruct (sev rho c) as [vc|x]; [|inversion Hr; exact Logic.I].
+  - rewrite run_SWhile in Hr. destruct (sev rho c) as [vc|x]; [|inversion Hr; exact Logic.I].
     destruct (struthy vc); [|inversion Hr; reflexivity].
-    destruct (run_stmts n rho b VNil) as [[[rho1 v1]|[x|rho1|rho1]]|] eqn:E; try discriminate.
-    + pose proof (run_list_length n IH b rho VNil true _ Hwb E) as Hl. cbn [lens_ok] in Hl.
-      assert (Hw' : wf_stmt top lp (length rho1) (SWhile c b) = true) by (rewrite wf_SWhile, Hl, Hwc, Hwb; reflexivity).
-      pose proof (IH rho1 (SWhile c b) top lp r Hw' Hr) as H2.
-      destruct r as [[rho2 v2]|[x|rho2|rho2]]; cbn [len_ok next_k] in *; congruence.
+    destruct (run_blk n rho b) as [[[rho1 v1]|[x|rho1|rho1]]|] eqn:E; try discriminate.
+    + pose proof (run_blk_length n IH b rho _ E) as Hl. cbn [lenb_ok] in Hl.
+      pose proof (IH rho1 (SWhile c b) r Hr) as H2.
+      destruct r as [[rho2 v2]|[x|rho2|rho2]]; cbn [len_ok next_n] in *; congruence.
     + inversion Hr; exact Logic.I.
-    + pose proof (run_list_length n IH b rho VNil true _ Hwb E) as Hl. cbn [lens_ok] in Hl.
-      inversion Hr; subst r. exact Hl.
-    + pose proof (run_list_length n IH b rho VNil true _ Hwb E) as Hl. cbn [lens_ok] in Hl.
-      assert (Hw' : wf_stmt top lp (length rho1) (SWhile c b) = true) by (rewrite wf_SWhile, Hl, Hwc, Hwb; reflexivity).
-      pose proof (IH rho1 (SWhile c b) top lp r Hw' Hr) as H2.
-      destruct r as [[rho2 v2]|[x|rho2|rho2]]; cbn [len_ok next_k] in *; congruence.
+    + pose proof (run_blk_length n IH b rho _ E) as Hl. cbn [lenb_ok] in Hl. inversion Hr; subst r. exact Hl.
+    + pose proof (run_blk_length n IH b rho _ E) as Hl. cbn [lenb_ok] in Hl.
+      pose proof (IH rho1 (SWhile c b) r Hr) as H2.
+      destruct r as [[rho2 v2]|[x|rho2|rho2]]; cbn [len_ok next_n] in *; congruence.
   - cbn [run_stmt] in Hr. inversion Hr. reflexivity.
   - cbn [run_stmt] in Hr. inversion Hr. reflexivity.
 Qed.
 
-Lemma run_stmts_length n l rho last lp r :
-  wf_stmts false lp (length rho) l = true -> run_stmts n rho l last = Some r -> lens_ok rho r.
+Lemma run_stmts_length n l rho last r : run_stmts n rho l last = Some r -> lens_ok rho r.
 Proof. apply run_list_length. apply run_stmt_length. Qed.
+Lemma run_block_length n l rho r : run_blk n rho l = Some r -> lenb_ok rho r.
+Proof. apply run_blk_length. apply run_stmt_length. Qed.
 
 (* a statement that is not an expression has the value nil *)
 Lemma run_stmt_value : forall n rho s rho' v, run_stmt n rho s = Some (inl (rho', v)) -> is_expr_stmt s = false -> v = VNil.
@@ -225,7 +243,7 @@ Proof.
   - cbn [run_stmt] in Hr. destruct (sbin BAdd (nth i rho VNil) (VInt (if up then 1%Z else (-1)%Z))); inversion Hr. reflexivity.
   - rewrite run_SWhile in Hr. destruct (sev rho c) as [vc|x]; [|discriminate].
     destruct (struthy vc); [|inversion Hr; reflexivity].
-    destruct (run_stmts n rho b VNil) as [[[rho1 v1]|[x|rho1|rho1]]|]; try discriminate.
+    destruct (run_blk n rho b) as [[[rho1 v1]|[x|rho1|rho1]]|]; try discriminate.
     + exact (IH rho1 (SWhile c b) rho' v Hr eq_refl).
     + inversion Hr. reflexivity.
     + exact (IH rho1 (SWhile c b) rho' v Hr eq_refl).
@@ -234,18 +252,22 @@ Qed.
 (* break and continue do not leave a statement that is not inside a loop *)
 Definition no_ctl (r : (list sval * sval) + stop) : Prop :=
   match r with inr (StBrk _) | inr (StCont _) => False | _ => True end.
-Lemma no_escape : forall n rho s top r, wf_stmt top false (length rho) s = true -> run_stmt n rho s = Some r -> no_ctl r.
+Lemma no_ctl_trunc n r : no_ctl r -> no_ctl (trunc n r).
+Proof. destruct r as [[rho v]|[x|rho|rho]]; cbn; auto. Qed.
+Lemma no_escape : forall n rho s r k, wf_stmt false k s = true -> run_stmt n rho s = Some r -> no_ctl r.
 Proof.
-  induction n as [|n IH]; intros rho s top r Hwf Hr; [discriminate|].
-  assert (Hlist : forall l rho0 last r0, wf_stmts false false (length rho0) l = true -> run_stmts n rho0 l last = Some r0 -> no_ctl r0).
-  { induction l as [|s0 l0 IHl]; intros rho0 last r0 Hw H0.
+  induction n as [|n IH]; intros rho s r k Hwf Hr; [discriminate|].
+  assert (Hlist : forall l rho0 last r0 k0, wf_stmts false k0 l = true -> run_stmts n rho0 l last = Some r0 -> no_ctl r0).
+  { induction l as [|s0 l0 IHl]; intros rho0 last r0 k0 Hw H0.
     - cbn in H0. inversion H0. exact Logic.I.
     - rewrite wf_stmts_cons in Hw. apply andb_true_iff in Hw. destruct Hw as [Hs Hw].
       rewrite run_stmts_cons in H0.
       destruct (run_stmt n rho0 s0) as [[[rho1 v1]|x]|] eqn:E; try discriminate.
-      + pose proof (run_stmt_length n rho0 s0 false false _ Hs E) as Hl. cbn [len_ok] in Hl.
-        rewrite (wf_false_next _ _ _ Hs) in Hl, Hw. rewrite <- Hl in Hw. exact (IHl rho1 v1 r0 Hw H0).
-      + inversion H0; subst r0. exact (IH rho0 s0 false _ Hs E). }
+      + exact (IHl rho1 v1 r0 _ Hw H0).
+      + inversion H0; subst r0. exact (IH rho0 s0 _ k0 Hs E). }
+  assert (Hblk : forall l rho0 r0 k0, wf_stmts false k0 l = true -> run_blk n rho0 l = Some r0 -> no_ctl r0).
+  { intros l rho0 r0 k0 Hw H0. unfold run_blk in H0. destruct (run_stmts n rho0 l VNil) as [r1|] eqn:E; [|discriminate].
+    cbn in H0. inversion H0; subst r0. apply no_ctl_trunc. exact (Hlist l rho0 VNil r1 k0 Hw E). }
   destruct s as [e|i e|i o e|i up|e|c t e|c t|c b| |].
   - cbn [run_stmt] in Hr. destruct (sev rho e); inversion Hr; exact Logic.I.
   - cbn [run_stmt] in Hr. destruct (sev rho e); inversion Hr; exact Logic.I.
@@ -255,33 +277,29 @@ Proof.
   - rewrite wf_SIf in Hwf. apply andb_true_iff in Hwf. destruct Hwf as [Hwct Hwe].
     apply andb_true_iff in Hwct. destruct Hwct as [Hwc Hwt].
     rewrite run_SIf in Hr. destruct (sev rho c) as [vc|x]; [|inversion Hr; exact Logic.I].
-    destruct (struthy vc); [exact (Hlist t rho VNil r Hwt Hr)|exact (Hlist e rho VNil r Hwe Hr)].
+    destruct (struthy vc); [exact (Hblk t rho r k Hwt Hr)|exact (Hblk e rho r k Hwe Hr)].
   - rewrite wf_SIf1 in Hwf. apply andb_true_iff in Hwf. destruct Hwf as [Hwc Hwt].
     rewrite run_SIf1 in Hr. destruct (sev rho c) as [vc|x]; [|inversion Hr; exact Logic.I].
-    destruct (struthy vc); [exact (Hlist t rho VNil r Hwt Hr)|inversion Hr; exact Logic.I].
+    destruct (struthy vc); [exact (Hblk t rho r k Hwt Hr)|inversion Hr; exact Logic.I].
   - rewrite wf_SWhile in Hwf. apply andb_true_iff in Hwf. destruct Hwf as [Hwc Hwb].
     rewrite run_SWhile in Hr. destruct (sev rho c) as [vc|x]; [|inversion Hr; exact Logic.I].
     destruct (struthy vc); [|inversion Hr; exact Logic.I].
-    destruct (run_stmts n rho b VNil) as [[[rho1 v1]|[x|rho1|rho1]]|] eqn:E; try discriminate.
-    + pose proof (run_stmts_length n b rho VNil true _ Hwb E) as Hl. cbn [lens_ok] in Hl.
-      apply (IH rho1 (SWhile c b) top r); [rewrite wf_SWhile, Hl, Hwc, Hwb; reflexivity|exact Hr].
+    destruct (run_blk n rho b) as [[[rho1 v1]|[x|rho1|rho1]]|] eqn:E; try discriminate.
+    + apply (IH rho1 (SWhile c b) r k); [rewrite wf_SWhile, Hwc, Hwb; reflexivity|exact Hr].
     + inversion Hr; exact Logic.I.
     + inversion Hr; exact Logic.I.
-    + pose proof (run_stmts_length n b rho VNil true _ Hwb E) as Hl. cbn [lens_ok] in Hl.
-      apply (IH rho1 (SWhile c b) top r); [rewrite wf_SWhile, Hl, Hwc, Hwb; reflexivity|exact Hr].
+    + apply (IH rho1 (SWhile c b) r k); [rewrite wf_SWhile, Hwc, Hwb; reflexivity|exact Hr].
   - discriminate.
   - discriminate.
 Qed.
-
-Lemma no_escape_stmts n : forall l rho top last r,
-  wf_stmts top false (length rho) l = true -> run_stmts n rho l last = Some r -> no_ctl r.
+Lemma no_escape_stmts n : forall l rho last r k,
+  wf_stmts false k l = true -> run_stmts n rho l last = Some r -> no_ctl r.
 Proof.
-  induction l as [|s l IH]; intros rho top last r Hw Hr.
+  induction l as [|s l IH]; intros rho last r k Hw Hr.
   - cbn in Hr. inversion Hr. exact Logic.I.
   - rewrite wf_stmts_cons in Hw. apply andb_true_iff in Hw. destruct Hw as [Hs Hw].
     rewrite run_stmts_cons in Hr.
     destruct (run_stmt n rho s) as [[[rho1 v1]|x]|] eqn:E; try discriminate.
-    + pose proof (run_stmt_length n rho s top false _ Hs E) as Hl. cbn [len_ok] in Hl.
-      rewrite <- Hl in Hw. exact (IH rho1 top v1 r Hw Hr).
-    + inversion Hr; subst r. exact (no_escape n rho s top _ Hs E).
+    + exact (IH rho1 v1 r _ Hw Hr).
+    + inversion Hr; subst r. exact (no_escape n rho s _ k Hs E).
 Qed.
